@@ -31,6 +31,9 @@ pub enum SK {
     /// a streamed QoS 1 publish (2 bytes, one chunk) and an ordinary QoS 1 send whose futures are both created before
     /// either is polled, then polled together
     StreamJoin,
+    /// a streamed QoS 1 publish whose payload handle the application drops at once while the send future is still
+    /// awaited (parked on the window, say): the send must fail locally - and hand on the wake-up it was given
+    StreamAbandon,
     /// two QoS 1 send futures created back to back and only then polled together (`join`): both are "awaiting
     /// sends" of one task, e.g. `join!(a.send_at_least_once(..), b.send_at_least_once(..))`
     Q1Join,
@@ -310,6 +313,25 @@ async fn run_sender_v5(sink: ntex_mqtt::v5::MqttSink, kind: SK, j: usize, app: A
             };
             push(if first { "resolved-at-once".into() } else { "abandoned".into() });
         }
+        SK::StreamAbandon => {
+            // abandoned only while parked: with a free window the header is written when the future is created, and
+            // what a payload handle dropped after that means is another matter (DESIGN 7.4) - the stream is then
+            // completed in the ordinary way
+            let parked = !sink.is_ready();
+            let (f1, pl) = sink.publish(bs(&format!("s{j}"))).stream_at_least_once(2);
+            let r1 = if parked {
+                drop(pl);
+                f1.await
+            } else {
+                let feeder = async move {
+                    let r = pl.send(by(&[0xD0, 0xD1])).await;
+                    drop(pl);
+                    r
+                };
+                ntex_util::future::join(f1, feeder).await.0
+            };
+            push(if r1.is_ok() { "ok".into() } else { format!("err:{:?}", r1.err()) });
+        }
         SK::StreamJoin => {
             let (f1, pl) = sink.publish(bs(&format!("s{j}"))).stream_at_least_once(2);
             let f2 = sink.publish(bs("t")).send_at_least_once(by(&[tag(j)]));
@@ -580,6 +602,25 @@ async fn run_sender_v3(sink: ntex_mqtt::v3::MqttSink, kind: SK, j: usize, app: A
                 std::future::poll_fn(|cx| std::task::Poll::Ready(fut.as_mut().poll(cx).is_ready())).await
             };
             push(if first { "resolved-at-once".into() } else { "abandoned".into() });
+        }
+        SK::StreamAbandon => {
+            // abandoned only while parked: with a free window the header is written when the future is created, and
+            // what a payload handle dropped after that means is another matter (DESIGN 7.4) - the stream is then
+            // completed in the ordinary way
+            let parked = !sink.is_ready();
+            let (f1, pl) = sink.publish(bs(&format!("s{j}"))).stream_at_least_once(2);
+            let r1 = if parked {
+                drop(pl);
+                f1.await
+            } else {
+                let feeder = async move {
+                    let r = pl.send(by(&[0xD0, 0xD1])).await;
+                    drop(pl);
+                    r
+                };
+                ntex_util::future::join(f1, feeder).await.0
+            };
+            push(if r1.is_ok() { "ok".into() } else { format!("err:{:?}", r1.err()) });
         }
         SK::StreamJoin => {
             let (f1, pl) = sink.publish(bs(&format!("s{j}"))).stream_at_least_once(2);
@@ -1717,6 +1758,7 @@ impl Scenario for Out {
                     || (matches!(self.cfg.senders[j], SK::Stream { plan: 8, .. }) && self.id_overlap[j] && s.results.iter().all(|r| !r.starts_with("err") || r.contains("PacketIdInUse") || r.contains("StreamingCancelled")));
                 let expected_local_failure = during_stream
                     || bad_stream
+                    || (self.cfg.senders[j] == SK::StreamAbandon && s.results.iter().all(|r| !r.starts_with("err") || r.contains("StreamingCancelled")))
                     || matches!(self.cfg.senders[j], SK::Q1Big | SK::Q1BigId(_) | SK::SubBig | SK::HugeThenTooLong)
                     || (matches!(self.cfg.senders[j], SK::Q1Id(_) | SK::SubId(_) | SK::UnsubId(_) | SK::Q2HoldId(_) | SK::Q1NoBlockId(_)) && self.id_overlap[j] && s.results.iter().all(|r| !r.starts_with("err") || r.contains("PacketIdInUse")));
                 if s.started && !s.cancelled && !expected_local_failure && s.results.iter().any(|r| r.starts_with("err")) {
